@@ -355,6 +355,18 @@ func c05fromItems(rng *sx.Rng, n int) {
 			twin := ordered.MapFromItems(items...)
 			twinRef := append(plist{}, ref...)
 			bad = c05oracle(m, ref, append([]string{"zz"}, keys...), true, true)
+			// the constructor is the history "Set each pair in turn" (the Coq model's from_items): the map built that
+			// way, which the model comparison covers, is equal to it in every respect
+			if bad == "" {
+				var sets []c05op
+				for _, it := range given {
+					sets = append(sets, c05op{kind: "s", a: it.Key, v: it.Value})
+				}
+				if t := c05run(1, sets, "new"); t.bad != "" || !ordered.EqualSS(m, t.m) || !ordered.EqualSS(t.m, m) || sx.String(c05snapshot(m)) != sx.String(c05snapshot(t.m)) {
+					bad = fmt.Sprintf("the constructed map differs from the map built by Set of each pair in turn (%s): %s vs %s", t.bad, sx.String(c05snapshot(m)), sx.String(c05snapshot(t.m)))
+				}
+				c05case(1, sets, sets, "new")
+			}
 			for k := rng.Intn(4); k > 0 && bad == ""; k-- {
 				o := c05op{kind: sx.Pick(rng, []string{"s", "r", "d"}), a: sx.Pick(rng, keys), b: sx.Pick(rng, keys), v: "w"}
 				ref = c05apply(m, ref, o)
